@@ -509,12 +509,16 @@ fn writes_case(ctx: &mut Ctx, bytes: &[u8]) -> Vec<Violation> {
                         src.push_str(&format!("  push(log, write(f, read(open(\"{}\"))));\n", sp));
                     }
                 }
-                if *fl {
-                    src.push_str("  flush(f);\n");
-                }
                 let b = d.bytes();
                 want_log.push(Val::Int(b.len() as i64));
                 appended.extend_from_slice(&b);
+                if *fl {
+                    // once flushed the bytes are in the file: a second handle opened now must see all of them
+                    src.push_str(&format!("  flush(f);\n  push(log, len(read(open(\"{}\"))));\n", path));
+                    let base = if ep.mode == 'a' { model.as_ref().map(|m| m.len()).unwrap_or(0) } else { 0 };
+                    want_log.push(Val::Int((base + appended.len()) as i64));
+                    ctx.class("writes:flush-then-read-back");
+                }
             }
         } else {
             src.push_str("  push(log, read(f));\n");
@@ -577,7 +581,7 @@ fn writes_case(ctx: &mut Ctx, bytes: &[u8]) -> Vec<Violation> {
         }
     }
     let _ = std::fs::remove_file(&path);
-    for i in 0..6 {
+    for i in 0..24 {
         let _ = std::fs::remove_file(format!("{}.{}", srcp, i));
     }
     out
